@@ -186,3 +186,7 @@ Definition h_append {A} (growcap : nat -> nat) (h : heap A) (s : hslice) (x : A)
   then ((a, o, S l, c), replace_nth a h (h_write (nth a h []) (o + l) [x]))
   else ((List.length h, 0%nat, S l, Nat.max (S l) (growcap (S l))),
         h ++ [h_read h s ++ x :: repeat x (Nat.max (S l) (growcap (S l)) - S l)]).
+
+(* make([]byte, n, c): n zero bytes visible, c - n spare; panics unless 0 <= n <= c (None) *)
+Definition sl_make (n c : Z) : option gslice :=
+  if (n <? 0) || (c <? n) then None else Some (repeat x00 (Z.to_nat n), repeat x00 (Z.to_nat (c - n))).
